@@ -17,6 +17,7 @@ use super::*;
 
 /// All 256 bytes.
 // FN: Opcode::decode, Opcode::encode, <Opcode as From<u8>>::from
+// ALSO: C02
 #[kani::proof]
 fn c03_opcode_byte_bijection() {
     let b: u8 = kani::any();
@@ -41,6 +42,7 @@ fn emitter_with(bytes: [u8; L], len: usize) -> BytecodeEmitter {
 
 // BOUND: bytecode buffer of at most 12 bytes (the function has no loop over the buffer)
 // FN: BytecodeEmitter::patch_jump
+// ALSO: C02
 #[kani::proof]
 #[kani::unwind(14)]
 fn c03_patch_jump() {
@@ -69,6 +71,7 @@ fn c03_patch_jump() {
 /// A label too close to the end of the body is an index panic, not a silent out-of-bounds write.
 // EXPECT-PANIC: index out of bounds
 // FN: BytecodeEmitter::patch_jump
+// ALSO: C02
 #[kani::proof]
 #[kani::should_panic]
 #[kani::unwind(14)]
